@@ -16,6 +16,14 @@ class PluginFaultBase(BaseException):
     """Injected non-Exception failure inside a plugin callback."""
 
 
+class BadOrder(int):
+    """An order value that is a number by type and cannot be compared."""
+
+    def _no(self, other):
+        raise PluginFault("order value that cannot be compared")
+    __lt__ = __gt__ = __le__ = __ge__ = _no
+
+
 class Sink:
     def __init__(self, k):
         self.k = k
@@ -113,6 +121,11 @@ def define(spec):
     def __init__(self, config=None):
         SINK.enter(pname, "__init__")
         Plugin.__init__(self, name=None, config=config)
+        self._own_reg = None
+        if spec.get("own_tp"):
+            # a plugin that brings its own tracepoint: registered when it is constructed, removed in its shutdown
+            self._own_cfg = config
+            self._own_reg = config.tracepoints.add_custom("simplug_own.py", 1, {}, [], [])
 
     def is_active(self):
         SINK.enter(pname, "is_active")
@@ -122,10 +135,18 @@ def define(spec):
 
     def order(self):
         SINK.enter(pname, "order")
-        return spec.get("order", 0)
+        o = spec.get("order", 0)
+        if o == "@nan":
+            return float("nan")
+        if o == "@badint":
+            return BadOrder(0)      # (0: its numeric value and the default order coincide)
+        return o
 
     def shutdown(self):
         SINK.enter(pname, "shutdown")
+        if self._own_reg is not None:
+            reg, self._own_reg = self._own_reg, None
+            self._own_cfg.tracepoints.remove_custom(reg)
 
     ns = {"__init__": __init__, "is_active": is_active, "order": order, "shutdown": shutdown, "spec": spec}
 
@@ -154,6 +175,11 @@ def define(spec):
             def m(self, name, labels, namespace, help_string, unit, value):
                 SINK.enter(pname, kind, (name, dict(labels) if labels is not None else None, namespace,
                                          help_string, unit, value))
+                if spec.get("label_vandal") and isinstance(labels, dict):
+                    # a processor that adapts the labels to its backend in place (a constant label, keys renamed)
+                    for key in list(labels):
+                        labels[key.replace("l", "L")] = labels.pop(key)
+                    labels["source"] = "vandal"
             m.__name__ = kind
             return m
         for kind in ("counter", "gauge", "histogram", "summary"):
